@@ -69,10 +69,10 @@ def add_lattice_universe(d, rng, u, next_id, new_universe, kind=None, lat_tr_p=0
                 n = [0., 0., 0.]
                 n[a] = 1.0
                 normals.append(n)
-        if kind.startswith('rect') and rng.random() < 0.2:
+        if kind.startswith('rect') and rng.random() < 0.4:
             # the whole cell turned by a degree or two (a core map digitised from a drawing, a slightly rotated
             # assembly): general planes whose normals are nearly, not exactly, coordinate axes
-            ang = math.radians(rng.choice([0.5, 1.0, 2.0, -1.5]))
+            ang = math.radians(rng.choice([0.5, 1.0, 2.0, -1.5, 0.05, -0.03, 0.06, -0.04, 0.02, -0.07]))
             ax = rng.randrange(3)
             i1, i2 = [(1, 2), (2, 0), (0, 1)][ax]
 
@@ -82,6 +82,8 @@ def add_lattice_universe(d, rng, u, next_id, new_universe, kind=None, lat_tr_p=0
                 out[i2] = math.sin(ang) * n[i1] + math.cos(ang) * n[i2]
                 return out
             normals = [turn(n) for n in normals]
+            if abs(ang) < 2e-3:
+                d._tiny_tilt = True
         refs = []
         rshared = getattr(d, '_rect_shared', None) if kind.startswith('rect') and rng.random() < 0.4 else None
         if rshared is not None and rshared[0] == dim:
